@@ -922,7 +922,7 @@ def correspondence(ctx, broken_obligations=()):
                      "declaration nodes of the implementation's own tree; non-trivial = at least 2 declarations (or 20+ chars for mutated)")
     total["input_histogram"] = hist
     total["samples"] = samples
-    total["partial"] = ["C12_generated (outline (parse (render p)) = expected p as a Coq theorem) needs the grammar model of C06: covered here by the generator-side oracle only"]
+    total["partial"] = ["the generator-side oracle checks names, kinds, order and positions of the expected outline for the generator's whole grammar; as a Coq theorem the composition text -> tokens -> tree -> outline is C12_outline_of_text, for the files of the grammar proved in C06 (FileRT.Decls)"]
     return total
 
 
